@@ -51,10 +51,10 @@ META = {
             "autodetection claimed for the UTF-8 BOM only; CR line ends for files only"),
     "C11": ("fixed-point oracle over repeated read->write cycles, corpus enumeration + Hypothesis",
             "for corpus files, generated LASFiles and generated texts: cycles 2..4 of write/read must reproduce the canonical content of the first re-read exactly",
-            "inputs that cannot be read or written the first time are rejected; open finding D41 (text samples holding both quote characters) excluded by construction"),
+            "inputs that cannot be read or written the first time are rejected; open findings D41 (text samples holding both quote characters) and D44 (text samples with digit-hyphen/comma-digit) excluded by construction"),
     "C12": ("metamorphic testing (pairs of writer configurations), corpus enumeration + Hypothesis",
             "two writer configurations with the same numeric format applied to fresh copies of the same input must re-read to equal content apart from VERS and WRAP, including 1.2 <-> 2.0 conversion",
-            "items whose value/description contains ':' are not compared across versions (ambiguous in the 1.2 format); D41 sources excluded"),
+            "items whose value/description contains ':' are not compared across versions (ambiguous in the 1.2 format); D41/D44 sources excluded"),
     "C13": ("model-based testing (documented numbering rule), exhaustive operation sequences + Hypothesis histories + file round trips",
             "all operation sequences up to length 4 (quick) over a 6-name alphabet x case modes are checked after every step against the "
             "documented naming model: uniqueness, resolution by item/attribute/LASFile[...], originals preserved; file-level multisets re-read under the three mnemonic_case modes",
@@ -64,12 +64,12 @@ META = {
             "arguments documented as ndarray are ndarrays; refused operations must only leave the state unchanged"),
     "C15": ("exhaustive reachable-state enumeration x probe keys against list/first-match reference",
             "every section state reachable by <= 4 operations (both case modes) is probed with present/absent/other-case/int/slice keys: "
-            "membership, item, attribute, get, get(add=True), value assignment and deletion must agree as stated",
+            "membership, item, attribute, get, get(add=True), value assignment and deletion must agree as stated; also on copies of a section and on the ~Parameter section of a file actually read with mnemonic_case",
             "attribute probes skip names shadowing list/SectionItems attributes"),
     "C16": ("before/after snapshot (frame condition) + determinism + truthfulness oracle, corpus enumeration + Hypothesis",
             "full typed snapshot of the object before and after 1..3 writes: only the documented fields may change, repeated writes are byte-identical, "
             "and STRT/STOP/STEP of the output equal first/last/first-increment of the index whenever the index was created/edited or STOP disagreed",
-            "objects that cannot be written are rejected; STRT/STOP/STEP compared within half a unit of the fifth decimal"),
+            "objects that cannot be written are rejected; STRT/STOP/STEP may lie anywhere between the index value held in memory and the value the numeric format printed, +- half a unit of the fifth decimal ('to format precision')"),
     "C17": ("copy-equality and independence oracle over pickle protocols 0..5 and deepcopy, corpus + Hypothesis",
             "LASFile, sections and single items with duplicated/blank/case-variant mnemonics are copied by every method; copies must be observably equal "
             "(incl. original and session mnemonics, dtypes, write() text) and independent of the original",
@@ -82,7 +82,7 @@ META = {
             "steering names and '~' lines excluded (counted); must-warn set taken narrowly (neither '.' nor ':')"),
     "C20": ("exhaustive fault enumeration over every low-level I/O operation and every open() of a clean run",
             "for each (call kind, input) a clean run under an open()/io.open() tracker measures the operation count N; every k in 1..N and every open j is then run with an injected OSError; "
-            "all handles lasio opened must be closed with the exception still alive, caller objects stay open",
+            "all handles lasio opened must be closed with the exception still alive, caller objects stay open; file names as str, Path and bytes; two-call histories (any outcome of the first call, then write()/to_csv() of the same object to a caller's stream)",
             "handles are opened through builtins.open/io.open; close() itself never fails; third-party opens are not judged"),
 }
 
@@ -129,7 +129,7 @@ def main():
         "not_applicable": [],
         "notes": "Exit codes: 0 held (KNOWN-FINDING lines are informational), 1 VIOLATION, 2 harness error. "
                  "VERIF_SEED selects the Hypothesis seed; PYTHONHASHSEED is pinned to 0 by the runner. "
-                 "known_findings.json lists open findings (C09 D40, C11 D41, C13 D23) and fixed ones.",
+                 "known_findings.json lists open findings (C09 D40, C11 D41 and D44, C13 D23) and fixed ones.",
     }
     with open(os.path.join(VERIF, "MANIFEST.json"), "w") as f:
         json.dump(man, f, indent=1)
